@@ -40,8 +40,19 @@ fn new_case(s: &str, tag: &str) -> Case {
                 let d = n.to_string();
                 match Name::new(&d) { Ok(m) if m == n => {}, _ => { c = c.fail("name-recreate", format!("{:?}", s)); } }
             }
+            // the other constructors of the same text / the same labels give the same name
+            use std::convert::TryFrom;
+            match Name::try_from(s) { Ok(m) if m == n => {}, _ => { c = c.fail("name-try-from", format!("Name::try_from({:?}) differs from Name::new", s)); } }
+            let ls = n.get_labels().to_vec();
+            let from_labels = Name::from(&ls[..]);
+            if from_labels != n || from_labels.to_string() != n.to_string() || Name::new_with_labels(&ls) != n { c = c.fail("name-from-labels", format!("the name made of the labels of {:?} is another name", s)); }
+            if n.get_labels().iter().any(|l| l.is_empty() || l.len() != l.as_bytes().len()) { c = c.fail("label-len", format!("{:?}", s)); }
         }
-        Err(_) => if want { c = c.fail("name-rejected", format!("{:?} rejected although it satisfies the label grammar", s)); },
+        Err(_) => {
+            if want { c = c.fail("name-rejected", format!("{:?} rejected although it satisfies the label grammar", s)); }
+            use std::convert::TryFrom;
+            if Name::try_from(s).is_ok() { c = c.fail("name-try-from", format!("Name::try_from({:?}) accepts what Name::new rejects", s)); }
+        }
     }
     c
 }
